@@ -4,6 +4,7 @@ Case lines (see lean/ArvVerif/Driver/C18.lean for the protocol):
   rw <idhex> <mthex>                 rewriteManifest                                  (driver fed)
   pdh <mthex>                        arvados.PortableDataHash                         (driver fed)
   get <cid> <req> <fwd> <local> <remotes> <order>   Conn.CollectionGet with scripted backends (fed)
+  getseq <cid> <n> (<req> <fwd> <local> <remotes> <order>){n}   n requests through ONE Conn   (fed)
   legacy <id> <expect> <field> <mt>  rewriteSignatures on a 200 record                (driver leg)
   legacyraw reqerr|badjson|status:N  rewriteSignatures pass-through branches          (driver leg)
   lfetch <req> <local> <remotes> <order>   fetchRemoteCollectionByPDH with scripted HTTP peers (driver leg)
@@ -19,7 +20,9 @@ RULE = ("manifests from a small grammar (1-3 streams, 1-3 locators per stream, s
         "locator, line ending changed), requested ids equal / one hex digit off / size off / other length / "
         "with trailing hints / 27-character UUIDs, 0-4 remotes answering {match, mismatch, 404, 5xx, 401, "
         "hang}, local {404, match, mismatch, 5xx, hang}, every completion order of the answering remotes "
-        "for <= 3 (quick) / <= 4 (thorough) of them; a get case is non-trivial when at least one backend "
+        "for <= 3 (quick) / <= 4 (thorough) of them; sequences of 2-5 requests through one Conn in which a remote "
+        "first answers honestly and later with alterations of the same / another byte length; the legacy delegate "
+        "with scripted HTTP peers; a get case is non-trivial when at least one backend "
         "returns a collection; distinct = distinct case line")
 ASSUMPTIONS = [
     "manifests are byte strings over printable ASCII plus \\n \\r \\t (no JSON/UTF-8 re-encoding effects)",
@@ -432,6 +435,89 @@ def _legacy_cases(rng, n):
     return cases
 
 
+def _same_length_alteration(rng, mt):
+    """an altered manifest of exactly the same byte length: a hash digit of a block locator flipped, one
+    character of a name changed, or two adjacent tokens of a line swapped"""
+    for _ in range(8):
+        k = rng.choice(["hashdigit", "char", "swap"])
+        if k == "hashdigit":
+            t, kind = _tamper(rng, mt, "hashdigit")
+            if kind == "hashdigit" and len(t) == len(mt) and t != mt:
+                return t
+        elif k == "char":
+            lines = mt.split("\n")
+            li = rng.randrange(max(1, len(lines) - 1))
+            toks = lines[li].split(" ")
+            if toks and toks[-1]:
+                c = toks[-1][-1]
+                toks[-1] = toks[-1][:-1] + ("y" if c != "y" else "z")
+                lines[li] = " ".join(toks)
+                return "\n".join(lines)
+        else:
+            t, kind = _tamper(rng, mt, "swap")
+            if kind == "swap" and len(t) == len(mt) and t != mt:
+                return t
+    return mt[:-2] + ("Q" if mt[-2:-1] != "Q" else "Z") + mt[-1:] if len(mt) > 2 else mt + "x"
+
+
+def _getseq_cases(rng, tier, n_scen):
+    """sequences of 2-5 by-PDH requests through one Conn: each remote has one fixed honest (signed)
+    rendering; per request it answers with that, with an alteration of the same byte length, with an
+    alteration of another length, 404, 5xx or hangs; the first request is mostly answered honestly"""
+    cases = []
+    for sc in range(n_scen):
+        odd = rng.random() < 0.2
+        streams = _structure(rng, odd)
+        base = _unsigned(streams)
+        pdh = spec_pdh(base)
+        cid = _cluster(rng)
+        rids = []
+        while len(rids) < rng.choice([1, 2, 2, 3, 3]):
+            r = _cluster(rng)
+            if r != cid and r not in rids:
+                rids.append(r)
+        honest = {r: _render(rng, streams, rng.choice(["all", "all", "some", "none"]), odd) for r in rids}
+        spell = rng.choice([pdh, pdh, pdh, pdh + "+K@zzzzz"])
+        steps = []
+        nsteps = rng.randint(2, 5)
+        for k in range(nsteps):
+            req = spell if rng.random() < 0.85 else rng.choice([pdh, pdh + "+" + _sig(rng), pdh + "0"])
+            ans, live = [], []
+            for i, r in enumerate(rids):
+                if k == 0:
+                    kind = rng.choice(["honest"] * 6 + ["E404", "same", "H"])
+                else:
+                    kind = rng.choice(["honest", "honest", "same", "same", "same", "longer", "E404", "E503", "H"])
+                if kind == "honest":
+                    a = _answer("M", r, 100 * k + i, honest[r])
+                elif kind == "same":
+                    a = _answer("M", r, 100 * k + i, _same_length_alteration(rng, honest[r]))
+                elif kind == "longer":
+                    a = _answer("M", r, 100 * k + i, _tamper(rng, honest[r], rng.choice(["file", "insert", "dup", "name"]))[0])
+                else:
+                    a = _answer(kind, r, 0)
+                ans.append(f"{r}={a}")
+                if kind != "H":
+                    live.append(r)
+            rng.shuffle(live)
+            local = "E:404" if rng.random() < 0.93 else _answer("M", cid, 100 * k + 99, base)
+            steps.append(f"{hx(req)} - {local} {';'.join(ans)} {','.join(live) or '-'}")
+        cases.append(f"getseq {hx(cid)} {nsteps} " + " ".join(steps))
+    return cases
+
+
+def _seq_steps(case, impl):
+    """the `get` case line and the result segment of every request of a getseq case"""
+    f = case.split(" ")
+    n = int(f[2])
+    segs = impl.split(" | ") if impl is not None else [None] * n
+    out = []
+    for k in range(n):
+        g = "get " + f[1] + " " + " ".join(f[3 + 5 * k:8 + 5 * k])
+        out.append((g, segs[k] if k < len(segs) else ""))
+    return out
+
+
 def _lreply(kind, rid, n, field=None, mt=None):
     if kind in ("H", "X"):
         return kind
@@ -509,6 +595,7 @@ def generate(rng, tier):
         cases.append(f"pdh {hx(mt)}")
     cases += _legacy_cases(rng, 500 if quick else 8000)
     cases += _lfetch_cases(rng, tier, 250 if quick else 4000)
+    cases += _getseq_cases(rng, tier, 250 if quick else 5000)
     return cases
 
 
@@ -575,6 +662,15 @@ def oracle(case, impl):
         return why and "relayed manifest differs from the sent one in more than +A -> +R<cluster>-: " + why
     if f[0] == "pdh":
         return None  # PortableDataHash by itself is judged through get/legacy (and compared with the model)
+    if f[0] == "getseq":
+        steps = _seq_steps(case, impl)
+        if len(impl.split(" | ")) != len(steps):
+            return "driver could not observe every request of the sequence: " + impl[:200]
+        for k, (g, seg) in enumerate(steps):
+            why = oracle(g, seg)
+            if why:
+                return f"request {k + 1} of {len(steps)} through the same Conn: " + why
+        return None
     if f[0] == "get":
         cid, req, fwd, local, rem, order = _parse_get(case)
         g = impl.split(" ")
@@ -706,6 +802,12 @@ def finding_of(case, impl, why):
     if not why:
         return None
     f = case.split(" ")
+    if f[0] == "getseq":
+        for g, seg in _seq_steps(case, impl):
+            w = oracle(g, seg)
+            if w:
+                return finding_of(g, seg, w)     # the first offending request decides
+        return None
     if f[0] == "get" and impl.startswith("ok "):
         cid, req, fwd, local, rem, order = _parse_get(case)
         g = impl.split(" ")
@@ -777,6 +879,8 @@ def nontrivial_key(case, impl):
         return case if len(f[-1]) > 66 else None
     if f[0] == "lfetch":
         return case if "R:" in case else None
+    if f[0] == "getseq":
+        return case
     return None
 
 
@@ -785,7 +889,7 @@ def describe(cases, impl):
          "get_answers": {"match": 0, "mismatch": 0, "E404": 0, "E5xx": 0, "E4xx_other": 0, "hang": 0},
          "get_client_cancel": 0, "get_fanout": 0, "get_winner_not_first_in_order": 0,
          "legacy_results": {}, "rw_changed": 0, "lfetch_results": {}, "lfetch_client_cancel": 0,
-         "lfetch_winner_not_first_in_order": 0}
+         "lfetch_winner_not_first_in_order": 0, "getseq_requests": 0, "getseq_results": {}}
     for c, r in zip(cases, impl):
         f = c.split(" ")
         d["ops"][f[0]] = d["ops"].get(f[0], 0) + 1
@@ -817,6 +921,11 @@ def describe(cases, impl):
             d["legacy_results"][k] = d["legacy_results"].get(k, 0) + 1
         elif f[0] == "rw":
             d["rw_changed"] += r != f[2]
+        elif f[0] == "getseq":
+            for _g, seg in _seq_steps(c, r):
+                d["getseq_requests"] += 1
+                k = " ".join(seg.split(" ")[:2]) if seg.startswith("err") else seg.split(" ")[0]
+                d["getseq_results"][k] = d["getseq_results"].get(k, 0) + 1
         elif f[0] == "lfetch":
             g = r.split(" ")
             k = g[0] + ((" " + g[1]) if g[0] in ("err", "localstatus") else "")
@@ -862,6 +971,11 @@ def neighbours(case, rng):
         for _ in range(4):
             t, _ = _tamper(rng, mt)
             out.append(" ".join(f[:4] + [hx(t)]))
+    elif f[0] == "getseq":
+        n = int(f[2])
+        # repeat the sequence, and repeat its last request once more
+        out.append(" ".join(f[:2] + [str(2 * n)] + f[3:] + f[3:]))
+        out.append(" ".join(f[:2] + [str(n + 1)] + f[3:] + f[3 + 5 * (n - 1):]))
     elif f[0] == "lfetch":
         req, local, rem, order = _parse_lfetch(case)
         for _ in range(3):
